@@ -252,7 +252,13 @@ func runC19(c *Ctx) {
 				return false
 			}
 			cl, ok := ex.Tuple.(*ssa.Call)
-			return ok && callName(cl) == "(*github.com/miekg/dns.Msg).Pack" && isItemField("resp")(cl.Call.Args[0])
+			if !ok || callName(cl) != "(*github.com/miekg/dns.Msg).Pack" {
+				return false
+			}
+			if al, isAl := cl.Call.Args[0].(*ssa.Alloc); isAl && localCopyOfField(al, IT+".resp") {
+				return true // D45: a by-value copy, packed with compression
+			}
+			return isItemField("resp")(cl.Call.Args[0])
 		}, "item.resp.Pack()")
 	} else {
 		c.anchorMissing("range function building CachedEntry in writeDump")
@@ -563,6 +569,7 @@ func runC19(c *Ctx) {
 	c.rule("R11", "one bad entry never costs the others, a block never exceeds what the reader accepts, and two dumps never write the file at once (Close stops the dump loop first)", 4)
 	checkDumpSkipsBadEntries(c, limit)
 	checkCloseStopsDumpLoopFirst(c)
+	checkDumpMessageBounded(c)
 
 	// ---------------------------------------------------------------- R10
 	c.rule("R10", "the writer leaves nothing out: every entry that is not expired is appended to a block, the last partial block is written, and the reader's block limit is a small constant", 3)
@@ -609,13 +616,24 @@ func runC19(c *Ctx) {
 						if n, isC := constInt(cm.Y); isC && n == limit {
 							expired = true
 						}
+						// D45: a message that does not fit 65535 bytes even with compression (no transport carries it, the
+						// loader refuses it)
+						if n, isC := constInt(cm.Y); isC && n >= 65535 {
+							if lc, isL := cm.X.(*ssa.Call); isL && callName(lc) == "builtin:len" {
+								if ex, isE := lc.Call.Args[0].(*ssa.Extract); isE {
+									if cl, isC := ex.Tuple.(*ssa.Call); isC && callName(cl) == "(*github.com/miekg/dns.Msg).Pack" {
+										expired = true
+									}
+								}
+							}
+						}
 					}
 				}
 				if !expired {
 					bad = p.pos(instrPos(r))
 				}
 			}
-			c.check(bad == "", "writer-appends-every-live-entry", instrPos(app), "only entries whose cache expiry has passed are left out", "the writer skips entries for another reason than 'cache expiry passed', 'cannot be packed' or 'bigger than a block' (return nil before the append at "+bad+"): live entries (e.g. all lazily kept ones) are missing from the dump")
+			c.check(bad == "", "writer-appends-every-live-entry", instrPos(app), "only entries whose cache expiry has passed are left out", "the writer skips entries for another reason than 'cache expiry passed', 'cannot be packed', 'bigger than a DNS message' or 'bigger than a block' (return nil before the append at "+bad+"): live entries (e.g. all lazily kept ones) are missing from the dump")
 		}
 		// the final flush
 		var lastFlush *ssa.Call
@@ -882,6 +900,10 @@ func checkDumpReaderFields(c *Ctx, rd *ssa.Function) {
 				if isNilConst(cm.Y) && cm.X.Type().String() == "error" && cm.Op == token.EQL {
 					continue
 				}
+				// D45: a message larger than a DNS message can be is refused (the writer never emits one)
+				if n, isC := constInt(cm.Y); isC && n >= 65535 && cm.Op == token.LEQ && isLenOfEntryMsg(cm.X) {
+					continue
+				}
 				// range-over-slice loop: index < len
 				if cm.Op == token.LSS {
 					if _, isPhi := cm.X.(*ssa.Phi); isPhi {
@@ -912,7 +934,17 @@ func checkDumpReaderFields(c *Ctx, rd *ssa.Function) {
 			cl, ok := cm.X.(*ssa.Call)
 			return ok && callName(cl) == "(*github.com/miekg/dns.Msg).Unpack"
 		}
-		if sk, _ := iterationCanSkip(storeCall, unpackErrSkip); sk && extra == "" {
+		oversizeSkip := func(iff *ssa.If, truth bool) bool {
+			g := guard{Cond: iff.Cond, Truth: truth, If: iff}
+			cm, ok := g.asCmp()
+			if !ok || cm.Op != token.GTR || !isLenOfEntryMsg(cm.X) {
+				return false
+			}
+			n, isC := constInt(cm.Y)
+			return isC && n >= 65535
+		}
+		allowedSkip := func(iff *ssa.If, truth bool) bool { return unpackErrSkip(iff, truth) || oversizeSkip(iff, truth) }
+		if sk, _ := iterationCanSkip(storeCall, allowedSkip); sk && extra == "" {
 			extra = "a condition that lets an iteration of the entry loop go on to the next entry without storing"
 		}
 		c.check(extra == "", "store-every-entry", instrPos(storeCall), "every decoded entry is handed to the store (expiry is judged there)",
@@ -957,6 +989,10 @@ func checkDumpWriterPairing(c *Ctx) {
 		if ex, isE := v.(*ssa.Extract); isE {
 			if cl, isC := ex.Tuple.(*ssa.Call); isC && callName(cl) == "(*github.com/miekg/dns.Msg).Pack" {
 				if k, okk := loadedField(cl.Call.Args[0]); okk && k == IT+".resp" {
+					good = true
+				}
+				// D45: a by-value copy of item.resp (packed with compression; the cached message itself is shared)
+				if al, isAl := cl.Call.Args[0].(*ssa.Alloc); isAl && localCopyOfField(al, IT+".resp") {
 					good = true
 				}
 			}
